@@ -75,7 +75,7 @@ def cloud_body(c):
 def correspond(ctx):
     strength = "thorough" if ctx.tier == "thorough" else "quick"
     ab.start_search(ctx, "c07_impl.py", {"mode": "search", "strength": strength, "seed": ctx.seed})
-    res = ctx.run_impl("c07_impl.py", {"mode": "corr", "strength": strength, "seed": ctx.seed}, timeout=1500)
+    res = ctx.run_impl("c07_impl.py", {"mode": "corr", "strength": strength, "seed": ctx.seed}, timeout=1500, threads=ab.THREADS)
     if res is None:
         return
     bodies = [("c07two%d" % i, two_body(c)) for i, c in enumerate(res["two"])] + \
